@@ -213,7 +213,10 @@ def h_two(ae, R, C):
     return h
 
 
-def h_mask(ae, R, C, usefrac):
+def h_mask(ae, R, C, usefrac, nsrc=1):
+    if nsrc > 1:
+        return h_mask_many(ae, R, C, usefrac, nsrc)
+
     def h(c):
         c.index_range = (-1, max(R, C) + 1)
         F2C = real('FWHM2CC')
@@ -245,6 +248,50 @@ def h_mask(ae, R, C, usefrac):
                 if not blank and not (m[i, j] == 0.0):
                     cl.append(z3.BoolVal(False))
         c.oblige(tag + ':blank <=> model >= threshold, others untouched', z3.And(cl))
+        return dict()
+    return h
+
+
+def h_mask_many(ae, R, C, usefrac, nsrc):
+    """several sources with overlapping evaluation boxes: concrete ellipses (so the model values are numbers), SYMBOLIC
+    threshold parameter: a pixel is blank iff some source's model reaches that source's threshold there, whatever the order"""
+    ells = [(1.2, 1.1, 9.0, 8.0, 0.0), (2.4, 1.7, 8.5, 8.2, 30.0), (0.8, 2.3, 10.0, 9.0, -50.0)][:nsrc]
+
+    def h(c):
+        ae.FWHM2CC = TRUE_F2C
+
+        class H:
+            def __init__(self):
+                self.k = 0
+
+            def sky2pix_ellipse(self, pos, a, b, pa):
+                self.k += 1
+                return ells[self.k - 1]
+        srcs = [Src(k) for k in range(nsrc)]
+        for k, s_ in enumerate(srcs):
+            s_.peak_flux = 2.0 + k
+            s_.local_rms = 0.25 * (1 + k)
+        par = real('frac') if usefrac else real('sigma')
+        c.assume(par.e > 0)
+        m = ae.make_model(srcs, (R, C), H(), mask=True, frac=(par if usefrac else None), sigma=(par if not usefrac else 4))
+        tag = 'make_model mask mode[%dx%d,%s,%d sources]' % (R, C, 'frac' if usefrac else 'sigma', nsrc)
+        cl = []
+        for i in range(R):
+            for j in range(C):
+                blank = isinstance(m[i, j], float) and m[i, j] != m[i, j]
+                over = []
+                for k, s_ in enumerate(srcs):
+                    xo, yo, sx, sy, th = ells[k]
+                    val = float(gauss_oracle((R, C), xo - 1, yo - 1, sx, sy, th, s_.peak_flux)[i, j])
+                    thr = par.e * core.const(s_.peak_flux) if usefrac else par.e * core.const(s_.local_rms)
+                    over.append(core.const(val) >= thr)
+                    # thresholds within rounding distance of a model value are outside the claim (floats as reals)
+                    c.assume(z3.Or(core.const(val) * z3.RealVal('999999/1000000') > thr, core.const(val) * z3.RealVal('1000001/1000000') < thr))
+                anyover = z3.Or(over)
+                cl.append(anyover if blank else z3.Not(anyover))
+                if not blank and not (isinstance(m[i, j], (int, float)) and m[i, j] == 0.0):
+                    cl.append(z3.BoolVal(False))
+        c.oblige(tag + ':blank <=> some source\'s model >= its threshold there (any threshold value), others untouched', z3.And(cl))
         return dict()
     return h
 
@@ -348,6 +395,85 @@ def params_of_model(m, R, C):
         return None
 
 
+def replay_mask():
+    """real make_model in mask mode on three neighbouring sources, both catalogue orders, frac and sigma thresholds: the blanked
+    pixels are the union of the pixels where a source's own Gaussian reaches its own threshold"""
+    ae = loader.real('AeRes')
+    models = loader.real('models')
+    R, C = 60, 70
+    ells = [(20.3, 21.1, 6.0, 4.0, 20.0), (20.9, 43.2, 5.0, 5.0, 0.0), (41.5, 30.4, 7.0, 3.5, -40.0), (52.0, 60.0, 4.0, 4.0, 0.0)]
+    for order in ((0, 1, 2, 3), (3, 2, 1, 0), (1, 0, 3, 2)):
+        for kw in (dict(frac=0.5), dict(frac=None, sigma=4), dict(frac=None, sigma=10), dict(frac=0.02)):
+            srcs = []
+            for k in order:
+                s_ = models.ComponentSource()
+                s_.ra, s_.dec, s_.peak_flux, s_.a, s_.b, s_.pa, s_.local_rms = 10.0 + k, -20.0, 3.0 + k, 60.0, 45.0, 0.0, 0.05 * (1 + k)
+                srcs.append(s_)
+
+            class H:
+                def sky2pix_ellipse(self, pos, a, b, pa):
+                    return ells[int(round(pos[0] - 10.0))]
+            m = real_np.array(ae.make_model(srcs, (R, C), H(), mask=True, **kw), dtype=float)
+            want = real_np.zeros((R, C), dtype=bool)
+            for k in order:
+                xo, yo, sx, sy, th = ells[k]
+                g = gauss_oracle((R, C), xo - 1, yo - 1, sx, sy, th, 3.0 + k)
+                thr = kw['frac'] * (3.0 + k) if kw.get('frac') is not None else kw['sigma'] * 0.05 * (1 + k)
+                # only inside the 5-FWHM evaluation box of the source (the model is not evaluated beyond it)
+                x, y = real_np.mgrid[0:R, 0:C]
+                t = math.radians(th)
+                xoff = 5 * (abs(sx * math.cos(t)) + abs(sy * math.sin(t)))
+                yoff = 5 * (abs(sx * math.sin(t)) + abs(sy * math.cos(t)))
+                box = (x >= math.floor(xo - xoff)) & (x < math.ceil(xo + xoff)) & (y >= math.floor(yo - yoff)) & (y < math.ceil(yo + yoff))
+                near = abs(g - thr) < 1e-6 * thr
+                want |= (g >= thr) & box & ~near
+            got = ~real_np.isfinite(m)
+            nearany = real_np.zeros((R, C), dtype=bool)
+            missing, extra = int((want & ~got).sum()), int((got & ~want).sum())
+            if missing or extra > 8:
+                return True, 'mask-union', 'mask mode %s, catalogue order %s: %d pixels where a source reaches its threshold are not blank, %d blank pixels beyond (of %d expected)' % (kw, list(order), missing, extra, int(want.sum()))
+    return False, None, None
+
+
+def replay_distorted():
+    """a header with SIP distortion terms: the model of a source must be centred where the full FITS WCS (astropy
+    all_world2pix) puts its sky position, also far from the reference pixel"""
+    from astropy.io import fits
+    from astropy.wcs import WCS
+    import warnings
+    ae = loader.real('AeRes')
+    wh = loader.real('wcs_helpers')
+    models = loader.real('models')
+    N = 400
+    hdr = fits.Header()
+    hdr['NAXIS'] = 2
+    hdr['NAXIS1'] = hdr['NAXIS2'] = N
+    hdr['CTYPE1'], hdr['CTYPE2'] = 'RA---TAN-SIP', 'DEC--TAN-SIP'
+    hdr['CRVAL1'], hdr['CRVAL2'] = 80.0, -25.0
+    hdr['CRPIX1'] = hdr['CRPIX2'] = N / 2.0
+    hdr['CDELT1'], hdr['CDELT2'] = -2.0 / 3600, 2.0 / 3600
+    hdr['A_ORDER'] = hdr['B_ORDER'] = 2
+    hdr['A_2_0'], hdr['A_0_2'], hdr['B_2_0'], hdr['B_1_1'] = 4e-5, -3e-5, 5e-5, 2e-5
+    hdr['BMAJ'], hdr['BMIN'], hdr['BPA'] = 8.0 / 3600, 8.0 / 3600, 0.0
+    with warnings.catch_warnings():
+        warnings.simplefilter('ignore')
+        w = WCS(hdr, naxis=2)
+        helper = wh.WCSHelper.from_header(hdr)
+        for (r0, c0) in ((200.0, 200.0), (40.0, 45.0), (350.0, 60.0), (330.0, 360.0)):
+            ra, dec = w.all_pix2world([[c0 + 1, r0 + 1]], 1)[0]
+            src = models.ComponentSource()
+            src.ra, src.dec, src.peak_flux, src.a, src.b, src.pa, src.local_rms = float(ra), float(dec), 5.0, 12.0, 12.0, 0.0, 0.1
+            m = real_np.array(ae.make_model([src], (N, N), helper), dtype=float)
+            if not real_np.any(m):
+                return True, 'distorted-wcs-source-dropped', 'TAN-SIP image: source at 0-based (row, col) = (%.1f, %.1f) is not modelled' % (r0, c0)
+            # flux-weighted centre of the model
+            x, y = real_np.mgrid[0:N, 0:N]
+            cr, cc = float((m * x).sum() / m.sum()), float((m * y).sum() / m.sum())
+            if math.hypot(cr - r0, cc - c0) > 0.3:
+                return True, 'distorted-wcs-position', 'TAN-SIP image: the model of a source that the FITS WCS puts at 0-based (row, col) = (%.2f, %.2f) is centred at (%.2f, %.2f)' % (r0, c0, cr, cc)
+    return False, None, None
+
+
 def replay_any(model, R, C):
     cands = []
     pr = params_of_model(model or {}, R, C)
@@ -394,6 +520,10 @@ def run(rep):
     meta.append(('mask', 1, 2))
     plans.append((h_mask(ae, 2, 1, False), dict(wall_s=600)))
     meta.append(('mask', 2, 1))
+    plans.append((h_mask(ae, 3, 3, True, nsrc=3), dict(wall_s=120)))
+    meta.append(('mask-many', 3, 3))
+    plans.append((h_mask(ae, 3, 3, False, nsrc=2), dict(wall_s=120)))
+    meta.append(('mask-many', 3, 3))
     found = set()
     for (kind, R, C), (st, res) in zip(meta, core.explore_many(plans, workers=8)):
         rep.stats(st)
@@ -401,7 +531,11 @@ def run(rep):
             for ob in r['obligations']:
                 rep.count(ob['result'], ob['name'])
                 if ob['result'] == 'sat' and ob['name'] not in found:
-                    bad, cls, detail, wit = replay_any(ob.get('model'), R, C)
+                    if kind.startswith('mask'):
+                        bad, cls, detail = replay_mask()
+                        wit = dict(kind='mask')
+                    else:
+                        bad, cls, detail, wit = replay_any(ob.get('model'), R, C)
                     if rep.finding('C14/K-render/%s' % (cls or ob['name'].split(':')[-1]), wit, detail or ob['name'], reproduced=bad) != 'not-reproduced':
                         found.add(ob['name'])
         if res:
@@ -411,6 +545,14 @@ def run(rep):
     rep.validated_runs(5)
     if bad:
         rep.finding('C14/K-render/%s' % cls, dict(kind='render'), detail, kernel='K-render')
+    bad, cls, detail = replay_distorted()
+    rep.validated_runs(4)
+    if bad:
+        rep.finding('C14/K-render/%s' % cls, dict(kind='distorted'), detail, kernel='K-render')
+    bad, cls, detail = replay_mask()
+    rep.validated_runs(12)
+    if bad:
+        rep.finding('C14/K-render/%s' % cls, dict(kind='mask'), detail, kernel='K-render')
     for pr in CANNED:
         bad, cls, detail = replay_pixel(pr)
         rep.validated_runs(1)
@@ -421,6 +563,12 @@ def run(rep):
 
 
 def replay(w):
+    if w['witness'].get('kind') == 'distorted':
+        bad, cls, detail = replay_distorted()
+        return bad, '%s: %s' % (cls, detail)
+    if w['witness'].get('kind') == 'mask':
+        bad, cls, detail = replay_mask()
+        return bad, '%s: %s' % (cls, detail)
     if w['witness'].get('kind') == 'pixel':
         bad, cls, detail = replay_pixel(w['witness']['params'])
         return bad, '%s: %s' % (cls, detail)
